@@ -5,6 +5,7 @@ import Driver.FramesMode
 import Driver.RatMode
 import Driver.MkMode
 import Driver.IntMode
+import Driver.NumMode
 /-! `osmt-model <mode> <file>`: line-protocol driver around the executable models and kernels. -/
 def main (args : List String) : IO UInt32 := do
   match args with
@@ -28,6 +29,13 @@ def main (args : List String) : IO UInt32 := do
     let mut out := ""
     for l in txt.splitOn "\n" do
       if l.trimAscii.toString != "" then out := out ++ Driver.intLine l ++ "\n"
+    IO.print out
+    return 0
+  | ["num", path] =>
+    let txt ← IO.FS.readFile path
+    let mut out := ""
+    for l in txt.splitOn "\n" do
+      if l != "" then out := out ++ Driver.numLine l ++ "\n"
     IO.print out
     return 0
   | ["mk", path] =>
